@@ -1506,35 +1506,38 @@ impl<D: TextDecorator> Renderer for SubRenderer<D> {
         other.flush_wrapping()?;
         let trailing_frags = std::mem::take(&mut other.pending_frags);
 
-        self.extend_lines(
-            other
-                .into_lines()?
-                .into_iter()
-                .zip(prefixes)
-                .map(|(line, prefix)| match line {
-                    RenderLine::Text(mut tline) => {
-                        if !prefix.is_empty() {
-                            tline.insert_front(TaggedString {
-                                s: prefix.to_string(),
-                                tag: tag.clone(),
-                            });
-                        }
-                        RenderLine::Text(tline)
-                    }
-                    RenderLine::Line(l) => {
-                        let mut tline = TaggedLine::new();
-                        tline.push(Str(TaggedString {
+        let mut new_lines = Vec::new();
+        for (line, prefix) in other.into_lines()?.into_iter().zip(prefixes) {
+            if str_width(prefix) > self.width && !self.options.allow_width_overflow {
+                // Not even the prefix fits (the sub-block was rendered at
+                // width zero but still produced a line).
+                return Err(TooNarrow);
+            }
+            new_lines.push(match line {
+                RenderLine::Text(mut tline) => {
+                    if !prefix.is_empty() {
+                        tline.insert_front(TaggedString {
                             s: prefix.to_string(),
                             tag: tag.clone(),
-                        }));
-                        tline.push(Str(TaggedString {
-                            s: l.to_string(),
-                            tag: tag.clone(),
-                        }));
-                        RenderLine::Text(tline)
+                        });
                     }
-                }),
-        );
+                    RenderLine::Text(tline)
+                }
+                RenderLine::Line(l) => {
+                    let mut tline = TaggedLine::new();
+                    tline.push(Str(TaggedString {
+                        s: prefix.to_string(),
+                        tag: tag.clone(),
+                    }));
+                    tline.push(Str(TaggedString {
+                        s: l.to_string(),
+                        tag: tag.clone(),
+                    }));
+                    RenderLine::Text(tline)
+                }
+            });
+        }
+        self.extend_lines(new_lines);
         self.pending_frags.extend(trailing_frags);
 
         Ok(())
